@@ -105,6 +105,25 @@ func c06(c *Ctx) {
 
 	lazy, preload, lazyName, preloadName, ok := c.lazyAndPreloadTables()
 	if !ok {
+		// the lazy table was found but no second one: does "unixfs-preload" dispatch through the lazy reifier's own table?
+		if lazy != nil && preload == nil {
+			reg, _ := c.reifierRegistry()
+			if fp := reg["unixfs-preload"]; fp != nil {
+				out := map[*ssa.Function]bool{}
+				for _, e := range c.G.Out[fp] {
+					out[e.Callee] = true
+				}
+				n := 0
+				for _, e := range lazy {
+					if e.Fn != nil && out[e.Fn] {
+						n++
+					}
+				}
+				if n == len(lazy) && n > 0 {
+					r.Violate("R6.1", "registry/preload-table-distinct", c.P.Pos(fp.Pos()), fmt.Sprintf("the \"unixfs-preload\" reifier %s dispatches through %s, the table of the lazy \"unixfs\" reifier, and through no table of its own: nothing is preloaded and no load error can surface at reification", core.FuncName(fp), lazyName))
+				}
+			}
+		}
 		r.Break("cannot identify the lazy and preload reifier tables from the KnownReifiers registry")
 		return
 	}
